@@ -261,6 +261,8 @@ func (node *Union) walkSubtree(visit Visit) error {
 		visit,
 		node.Left,
 		node.Right,
+		node.OrderBy,
+		node.Limit,
 	)
 }
 
@@ -308,6 +310,7 @@ func (node *Insert) walkSubtree(visit Visit) error {
 		node.Columns,
 		node.Rows,
 		node.OnDup,
+		node.Returning,
 	)
 }
 
@@ -332,9 +335,11 @@ func (node *Update) walkSubtree(visit Visit) error {
 		node.Comments,
 		node.TableExprs,
 		node.Exprs,
+		node.From,
 		node.Where,
 		node.OrderBy,
 		node.Limit,
+		node.Returning,
 	)
 }
 
@@ -361,11 +366,12 @@ func (node *Delete) walkSubtree(visit Visit) error {
 	return Walk(
 		visit,
 		node.Comments,
-		node.TableExprs,
+		node.Targets,
 		node.TableExprs,
 		node.Where,
 		node.OrderBy,
 		node.Limit,
+		node.Returning,
 	)
 }
 
@@ -876,7 +882,7 @@ func (node *Execute) Format(buf *TrackedBuffer) {
 }
 
 func (node *Execute) walkSubtree(visit Visit) error {
-	return Walk(visit, node.Using, node.PreparedStatementName)
+	return Walk(visit, node.PreparedStatementName, node.Values, node.Using)
 }
 
 // Format formats the node.
